@@ -97,10 +97,11 @@ type vResult struct {
 	Exp  string `json:"exp,omitempty"`
 	Act  string `json:"act,omitempty"`
 	Note string `json:"note,omitempty"`
+	Base uint32 `json:"base"` // concretisation used (VERIF_BASE reproduces it)
 }
 
 type vStats struct {
-	Steps, Exchanges, Overlaps, Ack2, NoAck2, Drops, Restarts, Ticks, States, ConvChecks, ConvHeld, Superseded int
+	Steps, Exchanges, Overlaps, Ack2, NoAck2, Drops, Restarts, Ticks, States, ConvChecks, ConvHeld, Superseded, BigVer int
 }
 
 func (s *vStats) add(o vStats) {
@@ -116,6 +117,7 @@ func (s *vStats) add(o vStats) {
 	s.ConvChecks += o.ConvChecks
 	s.ConvHeld += o.ConvHeld
 	s.Superseded += o.Superseded
+	s.BigVer += o.BigVer
 }
 
 // ---------------------------------------------------------------- gate transport
@@ -224,6 +226,7 @@ type vCluster struct {
 	pending map[string]*vPend
 	// harness-own ghosts
 	exchanged map[string]bool
+	cz        vConc
 }
 
 func vKey(name string) node.Key {
@@ -233,33 +236,77 @@ func vKey(name string) node.Key {
 func vName(k node.Key) string          { return "n" + strconv.Itoa(int(k)) }
 func vAddr(name string) address.Address { return address.Address("verif-" + name) }
 
-func vNode(name string, r vRec) node.Node {
+// vConc is the concretisation of abstract heartbeat versions, chosen per history: in
+// generation 0 the abstract version v > 0 is the concrete version base + v (the first tick
+// of generation 0 stands for base + 1 ticks); version 0 and every version of a later
+// generation (Heartbeat.Restart resets the version, ticks are real Increments) are
+// concrete as they are. The map is strictly monotone inside a generation, so the abstract
+// (generation, version) order is isomorphic to the concrete one, (0,0) stays (0,0), and a
+// restart compares (gen+1, small) against (gen, base+v).
+type vConc uint32
+
+var vBases = []uint32{0, 65534, 65535, 1 << 31}
+
+func (b vConc) up(g, v int) uint32 {
+	if g == 0 && v > 0 {
+		return uint32(b) + uint32(v)
+	}
+	return uint32(v)
+}
+
+func (b vConc) down(h version.Heartbeat) (g, v int) {
+	g = int(h.Generation)
+	if g == 0 && h.Version > 0 && b > 0 {
+		if h.Version > uint32(b) {
+			return g, int(h.Version - uint32(b))
+		}
+		return g, -int(h.Version) // not in the image of the map: never equals a spec value
+	}
+	return g, int(h.Version)
+}
+
+func (b vConc) node(name string, r vRec) node.Node {
 	return node.Node{
 		Key:       vKey(name),
 		Address:   vAddr(name),
-		Heartbeat: version.Heartbeat{Generation: uint32(r.G), Version: uint32(r.V)},
+		Heartbeat: version.Heartbeat{Generation: uint32(r.G), Version: b.up(r.G, r.V)},
 		State:     node.State(r.S),
 	}
 }
 
-func vRecOf(n node.Node) vRec {
-	return vRec{G: int(n.Heartbeat.Generation), V: int(n.Heartbeat.Version), S: int(n.State)}
+func (b vConc) rec(n node.Node) vRec {
+	g, v := b.down(n.Heartbeat)
+	return vRec{G: g, V: v, S: int(n.State)}
 }
 
-func vGroup(g node.Group) vMap {
+func (b vConc) group(g node.Group) vMap {
 	m := vMap{}
 	for k, n := range g {
-		m[vName(k)] = vRecOf(n)
+		m[vName(k)] = b.rec(n)
 	}
 	return m
 }
 
-func vDigests(d node.Digests) vMap {
+func (b vConc) digests(d node.Digests) vMap {
 	m := vMap{}
 	for k, dg := range d {
-		m[vName(k)] = vRec{G: int(dg.Heartbeat.Generation), V: int(dg.Heartbeat.Version)}
+		g, v := b.down(dg.Heartbeat)
+		m[vName(k)] = vRec{G: g, V: v}
 	}
 	return m
+}
+
+// jump turns the first tick of generation 0 (concrete version 1) into base + 1 ticks.
+func (c *vCluster) jump(ctx context.Context, name string) {
+	if c.cz == 0 {
+		return
+	}
+	s := c.stores[name]
+	host := s.GetHost()
+	if host.Heartbeat.Generation == 0 && host.Heartbeat.Version == 1 {
+		host.Heartbeat.Version = uint32(c.cz) + 1
+		s.SetNode(ctx, host)
+	}
 }
 
 func vAdv(a, b vRec) bool { return a.G > b.G || (a.G == b.G && a.V > b.V) }
@@ -320,8 +367,9 @@ func (c *vCluster) newGossip(name string, st store.Store) error {
 	return nil
 }
 
-func vNewCluster(ctx context.Context, init map[string]vMap) (*vCluster, error) {
+func vNewCluster(ctx context.Context, init map[string]vMap, cz vConc) (*vCluster, error) {
 	c := &vCluster{
+		cz: cz,
 		stores: map[string]store.Store{}, gossips: map[string]*Gossip{}, servers: map[string]*vServer{},
 		net: &vNet{handlers: map[address.Address]func(context.Context, Message) (Message, error){},
 			events: make(chan *vCall, 8)},
@@ -334,7 +382,7 @@ func vNewCluster(ctx context.Context, init map[string]vMap) (*vCluster, error) {
 	for _, name := range c.names {
 		grp := node.Group{}
 		for k, r := range init[name] {
-			grp[vKey(k)] = vNode(k, r)
+			grp[vKey(k)] = c.cz.node(k, r)
 		}
 		st := store.New(ctx)
 		st.SetState(ctx, store.State{Nodes: grp, HostKey: vKey(name)})
@@ -349,7 +397,7 @@ func vNewCluster(ctx context.Context, init map[string]vMap) (*vCluster, error) {
 func (c *vCluster) views() map[string]vMap {
 	res := map[string]vMap{}
 	for _, n := range c.names {
-		res[n] = vGroup(c.stores[n].CopyState().Nodes)
+		res[n] = c.cz.group(c.stores[n].CopyState().Nodes)
 	}
 	return res
 }
@@ -416,13 +464,16 @@ type vDelivery struct {
 }
 
 // vReplay steps fresh real objects through one history.
-func vReplay(hist []vStep, stats *vStats) (out vResult) {
+func vReplay(hist []vStep, stats *vStats, cz vConc) (out vResult) {
 	ctx := context.Background()
 	out = vResult{R: "ok", Step: -1}
 	if len(hist) == 0 || hist[0].A != "init" {
 		return vResult{R: "inconclusive", Note: "history does not start with init"}
 	}
-	c, err := vNewCluster(ctx, hist[0].St)
+	c, err := vNewCluster(ctx, hist[0].St, cz)
+	if cz > 0 {
+		stats.BigVer++
+	}
 	if err != nil {
 		return vResult{R: "inconclusive", Note: "setup: " + err.Error()}
 	}
@@ -456,6 +507,7 @@ func vReplay(hist []vStep, stats *vStats) (out vResult) {
 		switch st.A {
 		case "tick":
 			c.gossips[st.I].incrementHostHeartbeat(ctx)
+			c.jump(ctx, st.I)
 			isChange = true
 			stats.Ticks++
 		case "state":
@@ -466,6 +518,7 @@ func vReplay(hist []vStep, stats *vStats) (out vResult) {
 			host.State = node.State(st.S)
 			host.Heartbeat = host.Heartbeat.Increment()
 			s.SetNode(ctx, host)
+			c.jump(ctx, st.I)
 			isChange = true
 			stats.States++
 		case "restart":
@@ -489,10 +542,10 @@ func vReplay(hist []vStep, stats *vStats) (out vResult) {
 			c.setGated(false)
 			c.net.hook = func(to address.Address, req, res Message) {
 				if req.variant() == messageVariantAck2 {
-					deliveries = append(deliveries, vDelivery{to: st.J, nodes: vGroup(req.Nodes), pre: prev[st.J]})
+					deliveries = append(deliveries, vDelivery{to: st.J, nodes: c.cz.group(req.Nodes), pre: prev[st.J]})
 					stats.Ack2++
 				} else {
-					deliveries = append(deliveries, vDelivery{to: st.I, nodes: vGroup(res.Nodes), pre: prev[st.I]})
+					deliveries = append(deliveries, vDelivery{to: st.I, nodes: c.cz.group(res.Nodes), pre: prev[st.I]})
 				}
 			}
 			if err := c.gossips[st.I].GossipOnceWith(ctx, vAddr(st.J)); err != nil {
@@ -519,7 +572,7 @@ func vReplay(hist []vStep, stats *vStats) (out vResult) {
 			if inFlight > 1 {
 				stats.Overlaps++
 			}
-			if got := vDigests(p.call.req.Digests); !vEqMap(got, st.M.Digs) || len(p.call.req.Nodes) != 0 {
+			if got := c.cz.digests(p.call.req.Digests); !vEqMap(got, st.M.Digs) || len(p.call.req.Nodes) != 0 {
 				noteDrift(si, "msg", "sync digs="+vFmt(st.M.Digs), "sync digs="+vFmt(got))
 			}
 		case "sync", "ack", "ack2", "drop":
@@ -537,20 +590,20 @@ func vReplay(hist []vStep, stats *vStats) (out vResult) {
 					return vResult{R: "inconclusive", Step: si, Note: "timeout in sync handler"}
 				}
 				p.stage = "ack"
-				gd, gn := vDigests(p.call.res.Digests), vGroup(p.call.res.Nodes)
+				gd, gn := c.cz.digests(p.call.res.Digests), c.cz.group(p.call.res.Nodes)
 				if p.call.err != nil || !vEqMap(gd, st.M.Digs) || !vEqMap(gn, st.M.Nodes) {
 					noteDrift(si, "msg", "ack digs="+vFmt(st.M.Digs)+" nodes="+vFmt(st.M.Nodes),
 						fmt.Sprintf("ack digs=%s nodes=%s err=%v", vFmt(gd), vFmt(gn), p.call.err))
 				}
 			case "ack":
-				deliveries = append(deliveries, vDelivery{to: st.I, nodes: vGroup(p.call.res.Nodes), pre: prev[st.I]})
+				deliveries = append(deliveries, vDelivery{to: st.I, nodes: c.cz.group(p.call.res.Nodes), pre: prev[st.I]})
 				p.call.cmd <- "return"
 				select {
 				case ev := <-c.net.events:
 					p.call = ev
 					p.stage = "ack2"
 					stats.Ack2++
-					gn := vGroup(ev.req.Nodes)
+					gn := c.cz.group(ev.req.Nodes)
 					if st.M.Type != "ack2" || !vEqMap(gn, st.M.Nodes) {
 						noteDrift(si, "msg", st.M.Type+" nodes="+vFmt(st.M.Nodes), "ack2 nodes="+vFmt(gn))
 					}
@@ -572,7 +625,7 @@ func vReplay(hist []vStep, stats *vStats) (out vResult) {
 					return vResult{R: "inconclusive", Step: si, Note: "timeout after ack"}
 				}
 			case "ack2":
-				deliveries = append(deliveries, vDelivery{to: p.peer, nodes: vGroup(p.call.req.Nodes), pre: prev[p.peer]})
+				deliveries = append(deliveries, vDelivery{to: p.peer, nodes: c.cz.group(p.call.req.Nodes), pre: prev[p.peer]})
 				p.call.cmd <- "deliver"
 				select {
 				case <-p.call.handled:
@@ -732,6 +785,13 @@ func TestVerifGossipReplay(t *testing.T) {
 	var wg sync.WaitGroup
 	var smu sync.Mutex
 	var total vStats
+	seed, _ := strconv.Atoi(os.Getenv("VERIF_SEED"))
+	forced := int64(-1)
+	if v := os.Getenv("VERIF_BASE"); v != "" {
+		if f, err := strconv.ParseUint(v, 10, 32); err == nil {
+			forced = int64(f)
+		}
+	}
 	workers := runtime.GOMAXPROCS(0)
 	if w, _ := strconv.Atoi(os.Getenv("VERIF_WORKERS")); w > 0 {
 		workers = w
@@ -748,15 +808,21 @@ func TestVerifGossipReplay(t *testing.T) {
 					continue
 				}
 				var res vResult
+				// concretisation: forced by VERIF_BASE, else seeded per history
+				cz := vConc(vBases[(uint64(seed)*0x9E3779B97F4A7C15+uint64(j.i)*0xBF58476D1CE4E5B9)>>33%uint64(len(vBases))])
+				if forced >= 0 {
+					cz = vConc(uint32(forced))
+				}
 				func() {
 					defer func() {
 						if p := recover(); p != nil {
 							res = vResult{R: "violation", Kind: "panic", Sig: "C12 panic", Step: -1, Exp: "no panic", Act: fmt.Sprint(p)}
 						}
 					}()
-					res = vReplay(hist, &local)
+					res = vReplay(hist, &local, cz)
 				}()
 				res.I = j.i
+				res.Base = uint32(cz)
 				results <- res
 			}
 			smu.Lock()
